@@ -7,6 +7,14 @@ namespace {
 
 using namespace vfps;
 
+// the accessor of the applied-modulation records, tolerant of a repository in which it was renamed or removed: the program-mode
+// checks (and every other property's check, which shares this binary) must still build; the API-mode clause then reports that it
+// cannot observe the records
+template <class T> auto past_modulation(T& m, int) -> decltype(m.getPastModulation()) { return m.getPastModulation(); }
+template <class T> std::vector<std::array<meshaxis_t, 2>> past_modulation(T&, long) { return {}; }
+template <class T> constexpr auto has_past_modulation(int) -> decltype(std::declval<T&>().getPastModulation(), true) { return true; }
+template <class T> constexpr bool has_past_modulation(long) { return false; }
+
 struct ProbeRF : RFKickMap {
     using RFKickMap::RFKickMap;
     void kick(meshaxis_t phase, meshaxis_t ampl) { _calcKick(phase, ampl); }
@@ -123,7 +131,8 @@ struct C19 : Scenario {
         }
         for (long k = 0; k < napply; k++) {
             dyn->apply();
-            auto past = dyn->getPastModulation();
+            if (!has_past_modulation<DynamicRFKickMap>(0)) { o.fail("C19.one_record_per_apply", "DynamicRFKickMap offers no getPastModulation(): the records of the applied modulation cannot be observed step by step"); break; }
+            auto past = past_modulation(*dyn, 0);
             o.checks++;
             if (past.size() != 1) { o.fail("C19.one_record_per_apply", "apply #" + std::to_string(k) + " produced " + std::to_string(past.size()) + " records"); break; }
             if (!zero) st->kick(past[0][0], past[0][1]);
